@@ -3539,3 +3539,13 @@ pub fn verif_get_discovered_writer_incompatible_qos_policy_list<R: RtpsReader>(
 pub fn verif_fnmatch_to_regex(pattern: &str) -> String {
     fnmatch_to_regex(pattern)
 }
+
+/// The partition pattern test exactly as process_discovered_readers/writers do it for ONE (pattern, name) pair:
+/// `None` when the translated pattern is not a valid regex (such a pattern is skipped by the `filter_map`).
+#[cfg(dust_dds_verif)]
+#[doc(hidden)]
+pub fn verif_partition_pattern_is_match(pattern: &str, name: &str) -> Option<bool> {
+    Regex::new(&fnmatch_to_regex(pattern))
+        .ok()
+        .map(|regex| regex.is_match(name))
+}
